@@ -43,7 +43,7 @@ out.append('\n## 7. Seeded changes (realistic breakage produced by sub-agents th
 out.append('Each change compiles, passes the 427-test baseline, breaks the property only under something specific and comes with a demonstration that fails with it and passes without it '
            '(`seeded/<id>/{patch.diff, demo.py, notes.md, meta.json}`). `tools/try_seed.py <property> <dir>` applies a patch to /repo, requires the demo to exit 1 and the quick check to print '
            'VIOLATION, restores the tree and requires the demo to exit 0. "missed at first" entries led to a strengthening of the generator or of an oracle, described in the entry; all of them are '
-           'caught by the quick checks as committed. Nine rounds of seeding produced them (several agents per round, two changes per agent; exact duplicates of an archived change were '
+           'caught by the quick checks as committed. Ten rounds of seeding produced them (several agents per round, two changes per agent; exact duplicates of an archived change were '
            'dropped, the same edit seen from a second property was kept under that property). `tools/all_seeds_par.sh` re-runs all of them on scratch copies of the repository: in the '
            'last complete sweep (VERIF_SEED=0, 168 changes) 163 were caught as committed at that point; the other five led to (i) three families being made systematic instead of '
            'random, because the change was caught for most seeds only (a deterministic loop-structure probe in C04, tangents for collections mutable in the enclosing apply in every '
